@@ -535,7 +535,10 @@ class FileSession(Session):
 
     def _get_file_path(self):
         f = os.path.join(self.storage_path, self.SESSION_PREFIX + self.id)
-        if not os.path.abspath(f).startswith(self.storage_path):
+        # Compare on a path separator boundary: a sibling directory such as
+        # "sessions-old" also starts with the string "sessions".
+        storage_dir = os.path.join(self.storage_path, '')
+        if not os.path.abspath(f).startswith(storage_dir):
             raise cherrypy.HTTPError(400, 'Invalid session id in cookie.')
         return f
 
